@@ -29,7 +29,9 @@ func c18(r *Report) {
 	r.Gate(Gate{ID: "C18.web.status-2xx-high", Fn: wr, Effect: ok, Check: CmpCheck("StatusCode < 300", token.LSS, FieldV("Response", "StatusCode"), IntV(300), true)})
 	r.Gate(Gate{ID: "C18.web.content-type-parsed", Fn: wr, Effect: ok, Check: ErrCheck(Fn("std:mime", "", "ParseMediaType"))})
 	c18ContentTypes(r, wr)
-	r.Gate(Gate{ID: "C18.web.decoded", Fn: wr, Effect: ok, Check: ErrCheck(Fn(didPkg, "Document", "UnmarshalJSON"))})
+	// decoded by the node's own parser for untrusted documents (refuses null methods / empty references, which go-did keeps
+	// as nil pointers) or, before that fix, by the document's UnmarshalJSON
+	r.Gate(Gate{ID: "C18.web.decoded", Fn: wr, Effect: ok, Check: ErrCheck(Fn("vdr/resolver", "", "ParseDocument")), Alt: []Check{ErrCheck(Fn(didPkg, "Document", "UnmarshalJSON"))}})
 	r.Gate(Gate{ID: "C18.web.id-equals", Fn: wr, Effect: ok, Check: CallCheck(Fn(didPkg, "DID", "Equals"), -1, IsTrue)})
 	c18IDEqualsArgs(r, wr)
 	c18RequestURL(r, wr)
@@ -87,6 +89,9 @@ func c18(r *Report) {
 	r.Gate(Gate{ID: "C18.deactivated.nuts-store.nil-metadata-means-latest", Fn: p.Func("vdr/didnuts/didstore", "", "latestNonDeactivatedRequested"), Effect: ReturnsConstBoolVal(0, false),
 		Check: CmpCheck("resolveMetadata == nil is false", token.EQL, ParamV("resolveMetadata"), NilV(), false)})
 	c18SchemeNeverRewritten(r)
+	c18HostSegmentIsWholeHost(r)
+	c18X509(r)
+	c18AuditFixes(r, wr)
 	r.ArgIs("C18.url.ip-test-on-hostname", p.Func("vdr/didweb", "", "DIDToURL"), Fn("std:net", "", "ParseIP"), 0, CallV(Fn("std:net/url", "URL", "Hostname"), -1), 1)
 }
 
@@ -171,7 +176,11 @@ func c18IDEqualsArgs(r *Report, wr *ssa.Function) {
 		return
 	}
 	a, b := AccessPath(calls[0].Common().Args[0], 0), AccessPath(calls[0].Common().Args[1], 0)
-	if !(strings.Contains(a, "document.ID") && b == "id") && !(strings.Contains(b, "document.ID") && a == "id") {
+	// one side is the ID field of the decoded document (a did.Document), the other the requested identifier (parameter id)
+	isDocID := func(v ssa.Value) bool { return FieldV("Document", "ID").M(v) }
+	isReq := func(v ssa.Value) bool { return ParamV("id").M(v) }
+	x, y := calls[0].Common().Args[0], calls[0].Common().Args[1]
+	if !(isDocID(x) && isReq(y)) && !(isDocID(y) && isReq(x)) {
 		r.Bad(key, rule, r.P.Pos(calls[0].Pos()), "compared values are "+a+" and "+b)
 		return
 	}
@@ -461,4 +470,228 @@ func c18NutsDeactivated(r *Report) {
 			r.OK(key, rule, r.P.Pos(dat.Pos()), fmt.Sprintf("%d comparison(s)", n), true)
 		}
 	}
+}
+
+// c18HostSegmentIsWholeHost: the first segment of the did:web identifier URLToDID builds is the percent-encoded Host of
+// the URL — host name AND port, exactly as DIDToURL puts it back: a "normalised" host (default port dropped, lower-cased,
+// …) maps two different URLs/identifiers onto one and breaks the round trip.
+func c18HostSegmentIsWholeHost(r *Report) {
+	p := r.P
+	rule := "ARG: in URLToDID the text appended to \"did:web:\" is percentEncodeString(u.Host) — the URL's whole host:port"
+	fn := p.Func("vdr/didweb", "", "URLToDID")
+	if fn == nil {
+		r.Lost("C18.url.host-segment-is-whole-host", rule, "URLToDID not found")
+		return
+	}
+	key := "C18.url.host-segment-is-whole-host @ " + p.FuncName(fn)
+	n := 0
+	for _, b := range fn.Blocks {
+		for _, in := range b.Instrs {
+			bin, ok := in.(*ssa.BinOp)
+			if !ok || bin.Op != token.ADD {
+				continue
+			}
+			if s, isC := ConstString(bin.X); !isC || s != "did:web:" {
+				continue
+			}
+			n++
+			call, isCall := StripConv(bin.Y).(*ssa.Call)
+			if !isCall || !Fn("vdr/didweb", "", "percentEncodeString").M(call.Common()) || !FieldV("URL", "Host").M(CallArg(call.Common(), 0)) {
+				r.Bad(key, rule, p.Pos(bin.Pos()), "the host segment is "+AccessPath(bin.Y, 0))
+				return
+			}
+		}
+	}
+	r.Sites += n
+	if n == 0 {
+		r.Lost(key, rule, "no `\"did:web:\" + …` concatenation found")
+		return
+	}
+	r.OK(key, rule, p.Pos(fn.Pos()), "percentEncodeString(u.Host)", true)
+}
+
+// c18X509: did:x509 binds the document's key to the identifier through the CA the identifier names: the certificate whose key
+// goes into the document must be issued, through certificates of the presented chain, under the certificate whose
+// fingerprint is in the DID (fix: the chain was never verified — anyone could present the public CA certificate next to a
+// home-made certificate carrying the victim's SAN and resolve the victim's DID to a key of their own).
+func c18X509(r *Report) {
+	p := r.P
+	const x = "vdr/didx509"
+	res := p.Func(x, "Resolver", "Resolve")
+	ok := ReturnsNonNil(0)
+	vc := Fn(x, "", "validateChain")
+	r.Gate(Gate{ID: "C18.x509.chain-validated", Fn: res, Effect: ok, Check: ErrCheck(vc)})
+	r.Gate(Gate{ID: "C18.x509.ca-of-the-did-in-chain", Fn: res, Effect: ok, Check: ErrCheck(Fn(x, "", "findCertificateByHash"))})
+	r.Gate(Gate{ID: "C18.x509.policies", Fn: res, Effect: ok, Check: ErrCheck(Fn(x, "", "validatePolicy"))})
+	r.ArgIs("C18.x509.chain-validated.leaf-is-the-document-key-cert", res, vc, 0, CallV(Fn(x, "", "findValidationCertificate"), 0), 1)
+	r.ArgIs("C18.x509.chain-validated.root-is-the-ca-of-the-did", res, vc, 1, CallV(Fn(x, "", "findCertificateByHash"), 0), 1)
+	r.ArgIs("C18.x509.document-key-is-the-validated-cert", res, Fn(x, "", "createDidDocument"), 1, CallV(Fn(x, "", "findValidationCertificate"), 0), 1)
+	r.ArgIs("C18.x509.policies-on-the-validated-cert", res, Fn(x, "", "validatePolicy"), 1, CallV(Fn(x, "", "findValidationCertificate"), 0), 1)
+	// validateChain: success only when the walk arrived at the root; a step is taken only to a certificate whose key verifies
+	// the current certificate's signature
+	vcf := p.Func(x, "", "validateChain")
+	rootEq := CallCheck(Fn("std:crypto/x509", "Certificate", "Equal"), -1, IsTrue)
+	rootEq.Filter = func(ci ssa.CallInstruction) bool {
+		return ParamV("rootCert").M(CallArg(ci.Common(), 0)) || ParamV("rootCert").M(CallArg(ci.Common(), -1))
+	}
+	r.Gate(Gate{ID: "C18.x509.walk-ends-at-the-root", Fn: vcf, Effect: SuccessReturn(), Check: rootEq})
+	rule := "ARG: the issuer the walk steps to is a candidate selected behind candidate.CheckSignature(current…) == nil; no issuer found refuses"
+	key := "C18.x509.step-only-to-the-signer"
+	if vcf == nil {
+		r.Lost(key, rule, "validateChain not found")
+		return
+	}
+	key += " @ " + p.FuncName(vcf)
+	n, bad := 0, ""
+	for _, b := range vcf.Blocks {
+		for _, in := range b.Instrs {
+			phi, isPhi := in.(*ssa.Phi)
+			if !isPhi || !strings.Contains(phi.Type().String(), "x509.Certificate") {
+				continue
+			}
+			hasNil := false
+			for _, e := range phi.Edges {
+				if IsNilConst(e) {
+					hasNil = true
+				}
+			}
+			if !hasNil {
+				continue
+			}
+			for i, e := range phi.Edges {
+				if IsNilConst(e) || e == ssa.Value(phi) {
+					continue
+				}
+				if _, inner := e.(*ssa.Phi); inner {
+					continue
+				}
+				n++
+				if !FactHolds(b.Preds[i], token.EQL, CallV(Fn("std:crypto/x509", "Certificate", "CheckSignature"), -1), NilV()) {
+					bad = p.Pos(blockPosOf(b.Preds[i]))
+				}
+			}
+		}
+	}
+	r.Sites += n
+	switch {
+	case n == 0:
+		r.Lost(key, rule, "no selection of an issuer certificate recognised")
+	case bad != "":
+		r.Bad(key, rule, bad, "a certificate becomes the next issuer without its key having verified the current certificate's signature")
+	default:
+		r.OK(key, rule, p.Pos(vcf.Pos()), fmt.Sprintf("%d selection(s), each behind CheckSignature == nil", n), true)
+	}
+	r.Refuse(Refuse{ID: "C18.x509.no-issuer-refuses", Fn: vcf, Cond: CmpCheck("issuer == nil", token.EQL, VPat{Desc: "the selected issuer", M: func(v ssa.Value) bool {
+		ph, ok := v.(*ssa.Phi)
+		return ok && strings.Contains(ph.Type().String(), "x509.Certificate")
+	}}, NilV(), true), Effect: SuccessReturn()})
+}
+
+// c18AuditFixes: rules for defects found by the audit round.
+func c18AuditFixes(r *Report, wr *ssa.Function) {
+	p := r.P
+	const hc = "http/client"
+	// (a) a redirect is checked like the first request: every http.Client the strict client wraps has a CheckRedirect, the policy
+	//     accepts a redirect only to https (or outside strict mode), and the did:web resolver stays on the origin derived from the DID
+	rule := "ARG: every http.Client literal built in http/client sets CheckRedirect"
+	n, bad := 0, ""
+	for _, fn := range p.Funcs {
+		if !strings.HasPrefix(p.FuncName(Outer(fn)), hc+".") || p.FileClass(p.FuncPos(fn)) != "prod" {
+			continue
+		}
+		for _, b := range fn.Blocks {
+			for _, in := range b.Instrs {
+				al, ok := in.(*ssa.Alloc)
+				if !ok {
+					continue
+				}
+				nm, isN := al.Type().Underlying().(*types.Pointer).Elem().(*types.Named)
+				if !isN || nm.Obj().Name() != "Client" || nm.Obj().Pkg() == nil || nm.Obj().Pkg().Path() != "net/http" {
+					continue
+				}
+				n++
+				set := false
+				for _, ref := range *al.Referrers() {
+					if fa, isFA := ref.(*ssa.FieldAddr); isFA && nm.Underlying().(*types.Struct).Field(fa.Field).Name() == "CheckRedirect" {
+						set = true
+					}
+				}
+				if !set {
+					bad = p.Pos(al.Pos())
+				}
+			}
+		}
+	}
+	r.Sites += n
+	switch {
+	case n < 3:
+		r.Lost("C18.redirect.every-client-has-a-policy", rule, fmt.Sprintf("%d http.Client literals in http/client (expected >= 3)", n))
+	case bad != "":
+		r.Bad("C18.redirect.every-client-has-a-policy", rule, bad, "http.Client without CheckRedirect: Go's default policy follows redirects to any scheme and host")
+	default:
+		r.OK("C18.redirect.every-client-has-a-policy", rule, "", fmt.Sprintf("%d client literal(s)", n), true)
+	}
+	cr := p.Func(hc, "", "checkRedirect")
+	r.Gate(Gate{ID: "C18.redirect.https-only-in-strict-mode", Fn: cr, Effect: SuccessReturn(), Check: CmpCheck("req.URL.Scheme == \"https\"", token.EQL, FieldV("URL", "Scheme"), StrV("https"), true),
+		Alt: []Check{{Desc: "StrictMode is false", Pass: IsFalse, Values: func(fn *ssa.Function) []ssa.Value {
+			var out []ssa.Value
+			for _, b := range fn.Blocks {
+				for _, in := range b.Instrs {
+					if u, ok := in.(*ssa.UnOp); ok && u.Op == token.MUL {
+						if g, isG := u.X.(*ssa.Global); isG && g.Name() == "StrictMode" {
+							out = append(out, u)
+						}
+					}
+				}
+			}
+			return out
+		}}}})
+	r.FieldStoredIs("C18.redirect.did-web-stays-on-its-origin", p.Func("vdr/didweb", "", "NewResolver"), "Resolver", "HttpClient", CallV(Fn(hc, "StrictHTTPClient", "SameOriginRedirects"), -1), 1)
+	so := p.Func(hc, "StrictHTTPClient", "SameOriginRedirects")
+	if so != nil {
+		for _, cl := range WithAnons(so) {
+			if cl == so {
+				continue
+			}
+			r.Gate(Gate{ID: "C18.redirect.same-origin.host", Fn: cl, Effect: SuccessReturn(), Check: CmpCheck("req.URL.Host == via[0].URL.Host", token.EQL, FieldV("URL", "Host"), FieldV("URL", "Host"), true)})
+			r.Gate(Gate{ID: "C18.redirect.same-origin.scheme", Fn: cl, Effect: SuccessReturn(), Check: CmpCheck("req.URL.Scheme == via[0].URL.Scheme", token.EQL, FieldV("URL", "Scheme"), FieldV("URL", "Scheme"), true)})
+		}
+	} else {
+		r.Lost("C18.redirect.same-origin", "GATE", "SameOriginRedirects not found")
+	}
+	// (b) the escaped form of the path travels with the path: %2F inside a segment stays %2F on the wire
+	r.FieldStoredIs("C18.web.escaped-path-kept", wr, "URL", "RawPath", VPat{Desc: "baseURL.EscapedPath() + \"/did.json\"", M: func(v ssa.Value) bool {
+		bin, ok := v.(*ssa.BinOp)
+		return ok && bin.Op == token.ADD && CallV(Fn("std:net/url", "URL", "EscapedPath"), -1).M(bin.X)
+	}}, 1)
+	// (c) did:jwk is base64url
+	jr := p.Func("vdr/didjwk", "Resolver", "Resolve")
+	r.ArgIs("C18.jwk.base64url", jr, Fn("std:encoding/base64", "Encoding", "DecodeString"), -1, VPat{Desc: "base64.RawURLEncoding", M: func(v ssa.Value) bool {
+		u, ok := v.(*ssa.UnOp)
+		if !ok || u.Op != token.MUL {
+			return false
+		}
+		g, isG := u.X.(*ssa.Global)
+		return isG && g.Name() == "RawURLEncoding"
+	}}, 1)
+	// (d) URLToDID works on the escaped path for every character class
+	u2d := p.Func("vdr/didweb", "", "URLToDID")
+	r.ArgIs("C18.url.did-from-escaped-path", u2d, Fn("std:strings", "", "CutSuffix"), 0, VPat{Desc: "a value derived from u.EscapedPath()", M: func(v ssa.Value) bool {
+		esc := CallV(Fn("std:net/url", "URL", "EscapedPath"), -1)
+		for d := 0; d < 4; d++ {
+			if esc.M(v) {
+				return true
+			}
+			ex, ok := v.(*ssa.Extract)
+			if !ok {
+				return false
+			}
+			c, isC := ex.Tuple.(*ssa.Call)
+			if !isC || !Fn("std:strings", "", "CutSuffix").M(c.Common()) {
+				return false
+			}
+			v = c.Call.Args[0]
+		}
+		return false
+	}}, 2)
 }
